@@ -35,6 +35,7 @@ def build_system_matrix(net, branch_pit, node_pit, heat_mode):
     # the stored matrix structure belongs to the hydraulic system, the thermal matrix is always rebuilt
     update_option = get_net_option(net, "only_update_hydraulic_matrix") and not heat_mode
     update_only = update_option and "hydraulic_data_sorting" in net["_internal_data"] \
+                  and "hydraulic_data_entry_starts" in net["_internal_data"] \
                   and "hydraulic_matrix" in net["_internal_data"]
     use_numba = get_net_option(net, "use_numba")
 
@@ -228,6 +229,17 @@ def build_system_matrix(net, branch_pit, node_pit, heat_mode):
             system_cols = system_cols[data_order]
             system_rows = system_rows[data_order]
 
+            # several entries can address the same matrix position (e.g. a pressure controller
+            # whose controlled junction is its to-junction). They have to be summed up, as the
+            # solver would otherwise merge them inside the stored matrix and later data updates
+            # would be misplaced.
+            is_first = np.ones(len(system_rows), dtype=bool)
+            is_first[1:] = (system_rows[1:] != system_rows[:-1]) | (system_cols[1:] != system_cols[:-1])
+            entry_starts = np.flatnonzero(is_first)
+            system_data = np.add.reduceat(system_data, entry_starts) if len(entry_starts) else system_data
+            system_cols = system_cols[is_first]
+            system_rows = system_rows[is_first]
+
             row_counter = np.zeros(len_b + len_n + len_sl + 1, dtype=np.int32)
             unique_rows, row_counts = _sum_by_group_sorted(system_rows, np.ones_like(system_rows))
             row_counter[unique_rows + 1] += row_counts
@@ -235,10 +247,14 @@ def build_system_matrix(net, branch_pit, node_pit, heat_mode):
             system_matrix = csr_matrix((system_data, system_cols, ptr),
                                        shape=(len_n + len_b + len_sl, len_n + len_b + len_sl))
             net["_internal_data"]["hydraulic_data_sorting"] = data_order
+            net["_internal_data"]["hydraulic_data_entry_starts"] = entry_starts
             net["_internal_data"]["hydraulic_matrix"] = system_matrix
     else:
         data_order = net["_internal_data"]["hydraulic_data_sorting"]
+        entry_starts = net["_internal_data"]["hydraulic_data_entry_starts"]
         system_data = system_data[data_order]
+        if len(entry_starts):
+            system_data = np.add.reduceat(system_data, entry_starts)
         system_matrix = net["_internal_data"]["hydraulic_matrix"]
         system_matrix.data = system_data
 
